@@ -191,15 +191,33 @@ class Family:
             self.scripts.append({'id': '%s/%s%d' % (conf_name(conf), tag, len(self.scripts)), 'cfg': ecfg, 'steps': steps})
 
     # ------------------------------------------------------------------ R + V
-    def replay_and_validate(self, store='memory', chunk_lines=150000, only=None):
+    def replay_and_validate(self, store='memory', chunk_lines=25000, only=None):
         ctx = self.ctx
-        sp = os.path.join(ctx.scratch, 'scripts_%s.ndjson' % store)
-        common.ndjson_write(sp, [s_ for s_ in self.scripts if only is None or only(s_)])
-        tp = os.path.join(ctx.scratch, 'trace_%s.ndjson' % store)
-        p = ctx.run_vh(['session', '-scripts', sp, '-out', tp, '-store', store, '-repo', common.REPO], timeout=3000)
-        if p.returncode != 0:
-            raise common.Infra('vh session failed: %s' % p.stderr[-2000:])
-        rows = common.ndjson_read(tp)
+        todo = [s_ for s_ in self.scripts if only is None or only(s_)]
+        # the driver is single threaded: several driver processes, each with a slice of the scripts
+        if store != 'memory' and len(todo) > 2000:
+            # persistent stores are slow to create per script: a seed-chosen sample
+            todo = random.Random(ctx.seed).sample(todo, 2000)
+        nproc = (6 if store == 'memory' else 3) if len(todo) > 600 else 1
+        import subprocess
+        procs = []
+        for k in range(nproc):
+            sp = os.path.join(ctx.scratch, 'scripts_%s_%d.ndjson' % (store, k))
+            common.ndjson_write(sp, todo[k::nproc])
+            tp = os.path.join(ctx.scratch, 'trace_%s_%d.ndjson' % (store, k))
+            env = dict(os.environ, VERIF_SEED=str(ctx.seed))
+            procs.append((tp, subprocess.Popen([ctx.vh, 'session', '-scripts', sp, '-out', tp, '-store', store, '-repo', common.REPO],
+                                               stdout=subprocess.PIPE, stderr=subprocess.PIPE, text=True, env=env)))
+        rows = []
+        for tp, pr in procs:
+            try:
+                _, err = pr.communicate(timeout=3000)
+            except subprocess.TimeoutExpired:
+                pr.kill()
+                raise common.Infra('vh session timed out')
+            if pr.returncode != 0:
+                raise common.Infra('vh session failed: %s' % err[-2000:])
+            rows += common.ndjson_read(tp)
         self.rows = rows
         # panics: the implementation crashed inside a step.  They are C09's business; here the
         # script simply ends before that step (recorded, never silently dropped).
